@@ -129,8 +129,121 @@ def gen_autosql(src, one, num):
     L.append(f"Definition AUTOSQL_DECL_CAP : N := {num(cap)}.   (* the loop stops once i > cap: at most cap+1 declarations *)")
     return L
 
+# ------------------------------------------------------------------ UCSC flag table and native flags (C16)
+
+def coq_str_list(items):
+    return "[" + "; ".join(coq_bytes(x) for x in items) + "]"
+
+def clap_flags(text, struct, what):
+    """(long flags, short flags) that clap's derive gives the fields of `pub struct <struct> { .. }`"""
+    body = None
+    for m in re.finditer(r"pub struct " + struct + r" \{\n(.*?)\n\}\n", text, re.S):
+        if body is not None: die(f"{what}: struct {struct} found twice")
+        body = m.group(1)
+    if body is None: die(f"{what}: struct {struct} not found")
+    longs, shorts, attrs = [], [], []
+    for line in body.split("\n"):
+        t = line.strip()
+        if t.startswith("///") or t == "":
+            continue
+        m = re.fullmatch(r"#\[(arg|command)\((.*)\)\]", t)
+        if m:
+            if m.group(1) == "arg": attrs.append(m.group(2))
+            continue
+        m = re.fullmatch(r"pub (\w+): (.+),", t)
+        if not m: die(f"{what}: unexpected line in struct {struct}: {t!r}")
+        field = m.group(1)
+        for a in attrs:
+            for part in [x.strip() for x in a.split(",")]:
+                if part == "long": longs.append(("--" + field.replace("_", "-")).encode())
+                elif part.startswith("long"):
+                    mm = re.fullmatch(r'long\s*=\s*"([^"]+)"', part)
+                    if not mm: die(f"{what}: unsupported long attribute {part!r}")
+                    longs.append(("--" + mm.group(1)).encode())
+                elif part == "short": shorts.append(("-" + field[0]).encode())
+                elif part.startswith("short"):
+                    mm = re.fullmatch(r"short\s*=\s*'(.)'", part)
+                    if not mm: die(f"{what}: unsupported short attribute {part!r}")
+                    shorts.append(("-" + mm.group(1)).encode())
+        attrs = []
+    return longs, shorts
+
+def gen_compat(src, one, num):
+    c = src("bigtools/src/utils/cli.rs")
+    L = ["", "(* ---- bigtools/src/utils/cli.rs: compat_arg_mut table (UCSC spellings), the commands it is applied to, native clap flags ---- *)"]
+    # the macro: which string operation performs the replacement
+    mac = one(c, r"macro_rules! compat_replace_mut \{(.*?)\n\}\n", "compat_replace_mut macro", re.S)
+    arms = re.findall(r"Some\(b\) if b\.starts_with\(\$(\w+)\) =>", mac)
+    if arms != ["find", "ignore", "unimplemented"]:
+        die(f"compat_replace_mut: match arms are {arms}, expected find / ignore / unimplemented in this order")
+    op = one(mac, r"OsString::from_str\(&b\.(replace\(\$find, \$replace\)|replacen\(\$find, \$replace, 1\))\)\.unwrap\(\)", "replacement operation")
+    L.append("(* true: every occurrence of the UCSC spelling inside the argument is replaced (str::replace); false: only the prefix (replacen .. 1) *)")
+    L.append("Definition COMPAT_REPLACE_ALL : bool := %s." % ("true" if op.startswith("replace(") else "false"))
+    one(mac, r"Some\(b\) if b\.starts_with\(\$ignore\) => \*\(\$a\) = OsString::from_str\(\"\"\)\.unwrap\(\),", "ignore arm")
+    one(mac, r"Some\(b\) if b\.starts_with\(\$unimplemented\) => \{\s*panic!\(", "unimplemented arm", re.S)
+    tbl = one(c, r"fn compat_arg_mut\(arg: &mut OsString\) \{\s*compat_replace_mut!\(arg;(.*?)\n    \)\n\}", "compat_arg_mut table", re.S)
+    m = re.fullmatch(r"\s*replace:(.*?)ignore:(.*?)unimplemented:(.*)", tbl, re.S)
+    if not m: die("compat_arg_mut: sections replace / ignore / unimplemented not found in this order")
+    def strs(sec, what):
+        items = [x.strip() for x in sec.strip().split(";")]
+        out = []
+        for it in items:
+            parts = re.findall(RUST_STR, it)
+            if re.sub(RUST_STR, "", it).replace(",", "").strip() != "" or not parts:
+                die(f"{what}: unexpected entry {it!r}")
+            out.append([rust_unescape(p, what) for p in parts])
+        return out
+    rep = strs(m.group(1), "compat replace")
+    if any(len(x) != 2 for x in rep): die("compat replace: entries must be pairs")
+    ign = strs(m.group(2), "compat ignore"); unimp = strs(m.group(3), "compat unimplemented")
+    if any(len(x) != 1 for x in ign + unimp): die("compat ignore/unimplemented: entries must be single strings")
+    L.append("Definition COMPAT_REPLACE : list (list N * list N) := [")
+    for k, (a, b) in enumerate(rep):
+        L.append(f"  (* {coq_comment_text(a)} -> {coq_comment_text(b)} *)")
+        L.append(f"  ({coq_bytes(a)}, {coq_bytes(b)})" + (";" if k + 1 < len(rep) else ""))
+    L.append("].")
+    L.append("(* " + " ".join(coq_comment_text(x[0]) for x in ign) + " *)")
+    L.append(f"Definition COMPAT_IGNORE : list (list N) := {coq_str_list([x[0] for x in ign])}.")
+    L.append("(* " + " ".join(coq_comment_text(x[0]) for x in unimp) + " *)")
+    L.append(f"Definition COMPAT_UNIMPLEMENTED : list (list N) := {coq_str_list([x[0] for x in unimp])}.")
+    # compat_args: the commands whose arguments are rewritten (the arm that is not bigwigmerge)
+    arm = one(c, r"\n((?:\s*\|?\s*Some\(\"\w+\"\)\s*)+)=> \{\s*let mut args_vec = start;\s*args_vec\.extend\(args\);\s*args_vec\.iter_mut\(\)\.for_each\(compat_arg_mut\);",
+              "compat_args command arm", re.S)
+    cmds = re.findall(r'Some\("(\w+)"\)', arm)
+    L.append("(* " + " ".join(cmds) + " *)")
+    L.append(f"Definition COMPAT_COMMANDS : list (list N) := {coq_str_list([x.encode() for x in cmds])}.")
+    one(c, r'Some\("bigwigmerge"\) => \{', "compat_args bigwigmerge arm")
+    L.append(f"Definition COMPAT_MERGE_COMMAND : list N := {coq_bytes(b'bigwigmerge')}.")
+    one(c, r'\.map\(\|f\| f\.to_string_lossy\(\)\.to_lowercase\(\)\.ends_with\("bigtools"\)\)', "multicall test")
+    L.append(f"Definition COMPAT_MULTICALL : list N := {coq_bytes(b'bigtools')}.")
+    # native flags of the tools the rewriting is applied to
+    tools = [("bigtools/src/utils/cli.rs", "BBIWriteArgs"),
+             ("bigtools/src/utils/cli/bedgraphtobigwig.rs", "BedGraphToBigWigArgs"),
+             ("bigtools/src/utils/cli/bedtobigbed.rs", "BedToBigBedArgs"),
+             ("bigtools/src/utils/cli/bigwigtobedgraph.rs", "BigWigToBedGraphArgs"),
+             ("bigtools/src/utils/cli/bigbedtobed.rs", "BigBedToBedArgs"),
+             ("bigtools/src/utils/cli/bigwiginfo.rs", "BigWigInfoArgs"),
+             ("bigtools/src/utils/cli/bigwigaverageoverbed.rs", "BigWigAverageOverBedArgs")]
+    longs, shorts = [b"--help", b"--version"], [b"-h", b"-V"]
+    for rel, st in tools:
+        l, s = clap_flags(src(rel), st, rel)
+        longs += [x for x in l if x not in longs]; shorts += [x for x in s if x not in shorts]
+    if len(longs) < 10 or len(shorts) < 5: die("native flags: suspiciously few flags found")
+    L.append("(* " + " ".join(x.decode() for x in longs) + " *)")
+    L.append(f"Definition NATIVE_LONG_FLAGS : list (list N) := {coq_str_list(longs)}.")
+    L.append("(* " + " ".join(x.decode() for x in shorts) + " *)")
+    L.append(f"Definition NATIVE_SHORT_FLAGS : list (list N) := {coq_str_list(shorts)}.")
+    # what the converters copy into the writer options (C16 notes: --items-per-slot is parsed but not plumbed)
+    for rel, nm in [("bigtools/src/utils/cli/bedgraphtobigwig.rs", "BEDGRAPHTOBIGWIG"), ("bigtools/src/utils/cli/bedtobigbed.rs", "BEDTOBIGBED")]:
+        t = src(rel)
+        for opt in ("block_size", "items_per_slot"):
+            n = len(re.findall(r"outb\.options\.%s = args\.write_args\.%s;" % (opt, opt), t))
+            if n > 1: die(f"{rel}: {opt} plumbed {n} times")
+            L.append(f"Definition {nm}_PLUMBS_{opt.upper()} : bool := {'true' if n == 1 else 'false'}.")
+    return L
+
 # Register further table generators here; each is independent of the others.
-GENERATORS = [gen_autosql]
+GENERATORS = [gen_autosql, gen_compat]
 
 def extra(src, one, num):
     lines = []
